@@ -401,7 +401,18 @@ impl Primitive {
                 return Ok(matches!(x, Primitive::Optional(None)))
             }
             (P::Vector(v1), P::Vector(v2)) => {
-                return Ok(v1.0.borrow()[..].eq(v2.0.borrow().as_slice()))
+                // element-wise, with the equality of the language: `5` equals a `5` that came out of an
+                // optional-returning built-in, and an int equals the float of the same value
+                let (lhs, rhs) = (v1.0.borrow(), v2.0.borrow());
+
+                if lhs.len() != rhs.len() {
+                    return Ok(false);
+                }
+
+                return Ok(lhs
+                    .iter()
+                    .zip(rhs.iter())
+                    .all(|(x, y)| x == y || x.equals(y).unwrap_or(false)));
             }
             (P::Optional(maybe), yes) | (yes, P::Optional(maybe)) => {
                 if let Some(maybe_unwrapped) = maybe {
